@@ -33,6 +33,7 @@ import (
 	"github.com/grailbio/base/log"
 	"github.com/grailbio/bigmachine"
 	"github.com/grailbio/bigmachine/testsystem"
+	"github.com/grailbio/bigslice"
 	"github.com/grailbio/bigslice/exec"
 	"verifharness/vf"
 )
@@ -50,7 +51,8 @@ type LiveOp struct {
 }
 
 type Desc struct {
-	Kind     string   `json:"kind"` // sched | live
+	Kind     string   `json:"kind"` // sched | live | run
+	Mode     string   `json:"mode,omitempty"`
 	Reqs     [][2]int `json:"reqs,omitempty"`
 	Machs    [][2]int `json:"machs,omitempty"`
 	Maxprocs int      `json:"maxprocs,omitempty"`
@@ -205,12 +207,23 @@ type startReq struct {
 // gatedSystem is testsystem.System whose Start waits for the driver.
 type gatedSystem struct {
 	*testsystem.System
+	open    bool // Start is not gated
 	mu      sync.Mutex
 	waiting []*startReq
 	all     []*bigmachine.Machine
 }
 
+// Read is what bigmachine's OOM monitor tails (the kernel log): testsystem
+// opens the real file and the reader goroutine then blocks for ever, one per
+// machine. Not supported here, so that no goroutine outlives its case.
+func (g *gatedSystem) Read(ctx context.Context, m *bigmachine.Machine, filename string) (io.Reader, error) {
+	return nil, fmt.Errorf("verif: Read not supported")
+}
+
 func (g *gatedSystem) Start(ctx context.Context, n int) ([]*bigmachine.Machine, error) {
+	if g.open {
+		return g.System.Start(ctx, n)
+	}
 	req := &startReq{n: n, release: make(chan int)}
 	g.mu.Lock()
 	g.waiting = append(g.waiting, req)
@@ -643,7 +656,8 @@ func (l *live) teardown() {
 				l.inject(func() { m.Done(ri.procs, 0) })
 			}
 		}
-		for l.status == 0 && l.settle() {
+		// (bounded: a manager whose demand accounting is off keeps asking for machines)
+		for round := 0; round < 20 && l.status == 0 && l.settle(); round++ {
 			l.sys.mu.Lock()
 			ws := l.sys.waiting
 			l.sys.waiting = nil
@@ -760,6 +774,11 @@ func genOp(r *vf.Rand, l *live, machprocs int) LiveOp {
 	alive := l.liveMachines()
 	for tries := 0; tries < 50; tries++ {
 		x := r.Intn(100)
+		if len(waiting) > 0 && r.Chance(1, 2) {
+			x = 0
+		} else if x < 30 {
+			x = 30 + r.Intn(70)
+		}
 		switch {
 		case x < 30 && len(waiting) > 0:
 			n := waiting[r.Intn(len(waiting))]
@@ -771,7 +790,7 @@ func genOp(r *vf.Rand, l *live, machprocs int) LiveOp {
 				ok = r.Range(0, n)
 			}
 			return LiveOp{K: "release", N: n, Ok: ok}
-		case x < 60:
+		case x < 52:
 			n := r.Range(1, machprocs)
 			switch y := r.Intn(12); {
 			case y < 3:
@@ -851,6 +870,81 @@ func replayLive(d Desc) vf.Case {
 	})
 }
 
+// ---------------------------------------------------------------- (iii) Run's exit paths
+
+var probeFunc = bigslice.Func(func() bigslice.Slice {
+	return bigslice.Const(1, []int{1, 2, 3})
+})
+
+var runModes = []struct{ mode, exit string }{
+	{"rerun", "(XRan DOk)"},
+	{"run-error", "(XRan DRemote)"},
+	{"no-location", "XNoLocation"},
+	{"commit-fail", "XCommitFail"},
+}
+
+// runCase calls (*bigmachineExecutor).Run directly (hook VerifC14ProbeRun) on
+// a one-machine session and observes the machine's taskProcs before and after.
+func runCase(d Desc) vf.Case {
+	c := vf.Case{Desc: d, Kind: "run/" + d.Mode, Sig: "C14/run-" + d.Mode}
+	exit := ""
+	for _, m := range runModes {
+		if m.mode == d.Mode {
+			exit = m.exit
+		}
+	}
+	if exit == "" {
+		exit = "XCtxBeforeGrant"
+	}
+	ignore := goroutineIDs()
+	var (
+		p      exec.VerifC14RunProbe
+		err    error
+		failed bool
+	)
+	func() {
+		defer func() {
+			if r := recover(); r != nil {
+				failed = true
+			}
+		}()
+		sys := &gatedSystem{System: testsystem.New(), open: true}
+		sys.Machineprocs = 2
+		sys.KeepalivePeriod = time.Hour
+		sys.KeepaliveTimeout = 2 * time.Hour
+		sys.KeepaliveRpcTimeout = time.Hour
+		settle := func() {
+			deadline := time.Now().Add(watchdog)
+			for ok := 0; ok < 2; {
+				if quiet(ignore) {
+					ok++
+				} else {
+					ok = 0
+					if time.Now().After(deadline) {
+						panic("verif: manager did not settle")
+					}
+				}
+				runtime.Gosched()
+			}
+		}
+		p, err = exec.VerifC14ProbeRun(context.Background(), sys, probeFunc, d.Mode, 1.0, settle)
+	}()
+	if failed || err != nil {
+		// the probe itself did not run: an observation no model exit explains
+		p = exec.VerifC14RunProbe{Procs: 0, LoadBefore: 0, LoadAfter: -1}
+		c.Kind = "run/aborted"
+		c.Sig = "C14/run-probe-aborted"
+	}
+	if p.LoadAfter != p.LoadBefore {
+		c.Sig = "C14/run-" + d.Mode + "-leaks-procs"
+	}
+	c.Term = vf.App("CRun", exit, vf.Z(int64(p.Procs)), vf.Z(int64(p.Machprocs)), vf.Z(int64(p.LoadBefore)), vf.Z(int64(p.LoadAfter)))
+	c.Nontriv = vf.Hash(c.Term)
+	c.Observed = map[string]interface{}{"procs": p.Procs, "machprocs": p.Machprocs, "load_before": p.LoadBefore,
+		"load_after": p.LoadAfter, "task_state": p.State, "task_err": p.Err, "probe_err": fmt.Sprint(err)}
+	return c
+}
+
 // ---------------------------------------------------------------- main
 
 type nopOut struct{}
@@ -873,9 +967,12 @@ func main() {
 			os.Exit(2)
 		}
 		for _, d := range ds {
-			if d.Kind == "live" {
+			switch d.Kind {
+			case "live":
 				out.Add(replayLive(d))
-			} else {
+			case "run":
+				out.Add(runCase(d))
+			default:
 				out.Add(schedCase(d))
 			}
 		}
@@ -906,7 +1003,11 @@ func main() {
 			r := rl.Split()
 			out.Add(randomLive(r))
 		}
+		for _, m := range runModes {
+			out.Add(runCase(Desc{Kind: "run", Mode: m.mode}))
+		}
 		out.Notes = append(out.Notes,
+			"Run's exit paths: (*bigmachineExecutor).Run is called directly on a one-machine session for four exits (task ran ok, Worker.Run error, dependency without location, failed combiner commit); the machine's taskProcs is read before and after",
 			"live manager driven in lock-step; quiescence from runtime.Stack(all); System.Start gated by the driver so that deliveries possible before a batch comes up are taken first",
 			"ProbationTimeout is an event: the variable is set to -1h while Do is parked and Do is poked with a no-op cancel, so every machine on probation times out; otherwise it is 1h")
 	}
